@@ -9,8 +9,12 @@ Section Chains.
   Variable store : st -> diff -> st.
   Fixpoint build (rc : list diff) : st :=
     match rc with [] => st_empty | d :: older => store (build older) d end.
+  (* every block was accepted and left the system contracts it wrote to with a non-empty storage *)
   Fixpoint valid_chain (rc : list diff) : Prop :=
-    match rc with [] => True | d :: older => valid_chain older /\ valid_diffb (build older) d = true end.
+    match rc with
+    | [] => True
+    | d :: older => valid_chain older /\ valid_diffb (build older) d = true /\ sys_guard (build older) d = true
+    end.
 End Chains.
 
 Lemma build_new_ok : forall rc, valid_chain store_new rc ->
@@ -19,12 +23,12 @@ Lemma build_new_ok : forall rc, valid_chain store_new rc ->
 Proof.
   induction rc; simpl; intros.
   - split; [apply Inv_empty | split; [apply Hist_empty | split; [apply Agree_empty | auto]]].
-  - destruct H as [H1 H2]. destruct (IHrc H1) as [I [Hs [Ag En]]]. apply valid_diffb_Valid in H2.
-    split; [|split; [|split]].
-    + apply Inv_store_new; auto.
+  - destruct H as [H1 [H2 H3]]. destruct (IHrc H1) as [I [Hs [Ag En]]]. pose proof (valid_diffb_VS _ _ H2 H3) as V.
+    pose proof (Inv_store_new _ _ I V) as I'.
+    split; [|split; [|split]]; auto.
     + apply Hist_store_new; auto.
-    + rewrite <- En. eapply Agree_store; eauto. repeat split; auto.
-    + simpl. rewrite En. unfold blen. simpl length. lia.
+    + rewrite <- En. eapply Agree_store; eauto. rewrite store_new_eq by auto. repeat split; auto.
+    + rewrite En. unfold blen. simpl length. lia.
 Qed.
 
 Lemma build_old_ok : forall rc, valid_chain store_old rc ->
@@ -32,12 +36,15 @@ Lemma build_old_ok : forall rc, valid_chain store_old rc ->
 Proof.
   induction rc; simpl; intros.
   - split; [apply Inv_empty | split; [apply Agree_empty | auto]].
-  - destruct H as [H1 H2]. destruct (IHrc H1) as [I [Ag En]]. apply valid_diffb_Valid in H2.
-    split; [|split].
-    + apply Inv_store_old; auto.
-    + rewrite <- En. eapply Agree_store; eauto. unfold same_head. simpl. repeat split; auto.
+  - destruct H as [H1 [H2 H3]]. destruct (IHrc H1) as [I [Ag En]]. pose proof (valid_diffb_VS _ _ H2 H3) as V.
+    pose proof (Inv_store_old _ _ I V) as I'.
+    split; [|split]; auto.
+    + rewrite <- En. eapply Agree_store; eauto. rewrite store_old_eq. unfold same_head. simpl. repeat split; auto.
     + rewrite En. unfold blen. simpl length. lia.
 Qed.
+
+Lemma chain_VS : forall store d rc, valid_chain store (d :: rc) -> VS (build store rc) d.
+Proof. intros. destruct H as [_ [H2 H3]]. apply valid_diffb_VS; auto. Qed.
 
 Lemma blen_cons : forall (d : diff) older, blen (d :: older) = blen older + 1.
 Proof. intros. unfold blen. simpl length. lia. Qed.
@@ -47,12 +54,12 @@ Lemma reads_new : forall rc q n, valid_chain store_new rc -> n < blen rc ->
 Proof.
   induction rc; intros.
   - unfold blen in H0. simpl in H0. lia.
-  - pose proof H as Hv. simpl in H. destruct H as [H1 H2].
+  - pose proof H as Hv. simpl in H. destruct H as [H1 [H2 H3]].
     destruct (build_new_ok rc H1) as [I [Hs [Ag En]]].
     rewrite blen_cons in H0. destruct (N.eq_dec n (blen rc)).
     + subst. rewrite truth_at_head. destruct (build_new_ok (a :: rc) Hv) as [I' [Hs' [Ag' En']]].
       apply read_new_head; auto. rewrite En'. apply blen_cons.
-    + simpl build. rewrite read_new_stable; auto using valid_diffb_Valid; [|lia].
+    + simpl build. rewrite read_new_stable; auto; [| apply (chain_VS store_new); auto | lia].
       rewrite IHrc; auto; [|lia]. rewrite truth_at_old; auto. lia.
 Qed.
 
@@ -61,76 +68,135 @@ Lemma reads_old : forall rc q n, valid_chain store_old rc -> n < blen rc ->
 Proof.
   induction rc; intros.
   - unfold blen in H0. simpl in H0. lia.
-  - pose proof H as Hv. simpl in H. destruct H as [H1 H2].
+  - pose proof H as Hv. simpl in H. destruct H as [H1 [H2 H3]].
     destruct (build_old_ok rc H1) as [I [Ag En]].
     rewrite blen_cons in H0. destruct (N.eq_dec n (blen rc)).
     + subst. rewrite truth_at_head. destruct (build_old_ok (a :: rc) Hv) as [I' [Ag' En']].
       apply read_old_head; auto. rewrite En'. apply blen_cons.
-    + simpl build. rewrite read_old_stable; auto using valid_diffb_Valid; [|lia].
+    + simpl build. rewrite read_old_stable; auto; [| apply (chain_VS store_old); auto | lia].
       rewrite IHrc; auto; [|lia]. rewrite truth_at_old; auto. lia.
 Qed.
 
 (* ---------- operation sequences ---------- *)
-Definition RunInv (store : st -> diff -> st) (c : st * list diff) : Prop :=
-  fst c = build store (snd c) /\ valid_chain store (snd c).
+(* the configuration of a guarded run: the state is the one built from the surviving chain, whose blocks
+   were all accepted and satisfied the guard - as long as the guard flag is still up *)
+Definition RunInv (store : st -> diff -> st) (cg : (st * list diff) * bool) : Prop :=
+  snd cg = true -> fst (fst cg) = build store (snd (fst cg)) /\ valid_chain store (snd (fst cg)).
 
-Lemma step_new_inv : forall c o, RunInv store_new c -> RunInv store_new (step store_new revert_new c o).
+Lemma gstep_new_inv : forall cg o, RunInv store_new cg -> RunInv store_new (gstep store_new revert_new cg o).
 Proof.
-  intros [s rc] o [H1 H2]. simpl in *. subst. destruct o; simpl.
-  - destruct (valid_diffb (build store_new rc) d) eqn:E; split; simpl; auto.
-  - destruct rc as [|d older]; [split; auto|]. simpl in *. destruct H2 as [H2 H3].
+  intros [[s rc] g] o H. unfold RunInv, gstep in *. cbn [fst snd] in *. intros G.
+  apply andb_true_iff in G. destruct G as [G1 G2]. destruct (H G1) as [H1 H2]. subst s.
+  destruct o; simpl.
+  - destruct (valid_diffb (build store_new rc) d) eqn:E; simpl in *; auto.
+  - destruct rc as [|d older]; [split; auto|]. simpl in *. pose proof (chain_VS store_new d older H2) as V.
+    destruct H2 as [H2 H3].
     destruct (build_new_ok older H2) as [I [Hs [Ag En]]].
-    rewrite revert_store_new; auto using valid_diffb_Valid. split; auto.
+    rewrite revert_store_new; auto.
 Qed.
 
-Lemma step_old_inv : forall c o, RunInv store_old c -> RunInv store_old (step store_old revert_old c o).
+Lemma gstep_old_inv : forall cg o, RunInv store_old cg -> RunInv store_old (gstep store_old revert_old cg o).
 Proof.
-  intros [s rc] o [H1 H2]. simpl in *. subst. destruct o; simpl.
-  - destruct (valid_diffb (build store_old rc) d) eqn:E; split; simpl; auto.
-  - destruct rc as [|d older]; [split; auto|]. simpl in *. destruct H2 as [H2 H3].
-    destruct (build_old_ok older H2) as [I [Ag En]]. pose proof (valid_diffb_Valid _ _ H3) as Vd.
-    rewrite revert_store_old; auto. split; auto.
+  intros [[s rc] g] o H. unfold RunInv, gstep in *. cbn [fst snd] in *. intros G.
+  apply andb_true_iff in G. destruct G as [G1 G2]. destruct (H G1) as [H1 H2]. subst s.
+  destruct o; simpl.
+  - destruct (valid_diffb (build store_old rc) d) eqn:E; simpl in *; auto.
+  - destruct rc as [|d older]; [split; auto|]. simpl in *. pose proof (chain_VS store_old d older H2) as V.
+    destruct H2 as [H2 H3].
+    destruct (build_old_ok older H2) as [I [Ag En]].
+    rewrite revert_store_old; auto.
 Qed.
 
-Lemma run_inv : forall store revert, (forall c o, RunInv store c -> RunInv store (step store revert c o)) ->
-  forall ops c, RunInv store c -> RunInv store (fold_left (step store revert) ops c).
+Lemma grun_inv : forall store revert, (forall cg o, RunInv store cg -> RunInv store (gstep store revert cg o)) ->
+  forall ops cg, RunInv store cg -> RunInv store (fold_left (gstep store revert) ops cg).
 Proof. induction ops; simpl; intros; auto. Qed.
 
-Lemma run_new_inv : forall ops, RunInv store_new (run_new ops).
-Proof. intros. apply run_inv; [apply step_new_inv | split; simpl; auto]. Qed.
+(* the guarded run is the run, with the flag beside it *)
+Lemma grun_fst : forall store revert ops cg,
+  fst (fold_left (gstep store revert) ops cg) = fold_left (step store revert) ops (fst cg).
+Proof. induction ops; simpl; intros; auto. rewrite IHops. auto. Qed.
 
-Lemma run_old_inv : forall ops, RunInv store_old (run_old ops).
-Proof. intros. apply run_inv; [apply step_old_inv | split; simpl; auto]. Qed.
+Lemma run_new_inv : forall ops, sys_guarded_new ops = true ->
+  fst (run_new ops) = build store_new (snd (run_new ops)) /\ valid_chain store_new (snd (run_new ops)).
+Proof.
+  intros ops G. unfold sys_guarded_new in G.
+  pose proof (grun_inv store_new revert_new gstep_new_inv ops ((st_empty, []), true)) as H.
+  unfold RunInv in H at 2. rewrite grun_fst in H. apply H; auto. intros _. simpl. auto.
+Qed.
 
-Lemma c03_new_lemma : forall ops s rc, run_new ops = (s, rc) ->
+Lemma run_old_inv : forall ops, sys_guarded_old ops = true ->
+  fst (run_old ops) = build store_old (snd (run_old ops)) /\ valid_chain store_old (snd (run_old ops)).
+Proof.
+  intros ops G. unfold sys_guarded_old in G.
+  pose proof (grun_inv store_old revert_old gstep_old_inv ops ((st_empty, []), true)) as H.
+  unfold RunInv in H at 2. rewrite grun_fst in H. apply H; auto. intros _. simpl. auto.
+Qed.
+
+Lemma c03_new_lemma : forall ops s rc, run_new ops = (s, rc) -> sys_guarded_new ops = true ->
   (forall q n, n < blen rc -> read_new s q n = lookup (truth_at rc n) q) /\
   (forall q, read_head s q = lookup (truth rc) q).
 Proof.
-  intros. pose proof (run_new_inv ops) as [H1 H2]. rewrite H in *. simpl in *. subst. split; intros.
+  intros ops s rc H G. pose proof (run_new_inv ops G) as [H1 H2]. rewrite H in *. simpl in *. subst. split; intros.
   - apply reads_new; auto.
   - destruct (build_new_ok rc H2) as [I [_ [Ag _]]]. apply read_head_ok; auto.
 Qed.
 
-Lemma c03_old_lemma : forall ops s rc, run_old ops = (s, rc) ->
+Lemma c03_old_lemma : forall ops s rc, run_old ops = (s, rc) -> sys_guarded_old ops = true ->
   (forall q n, n < blen rc -> read_old s q n = lookup (truth_at rc n) q) /\
   (forall q, read_head s q = lookup (truth rc) q).
 Proof.
-  intros. pose proof (run_old_inv ops) as [H1 H2]. rewrite H in *. simpl in *. subst. split; intros.
+  intros ops s rc H G. pose proof (run_old_inv ops G) as [H1 H2]. rewrite H in *. simpl in *. subst. split; intros.
   - apply reads_old; auto.
   - destruct (build_old_ok rc H2) as [I [Ag _]]. apply read_head_ok; auto.
+Qed.
+
+(* a sequence that never writes to a system contract is guarded *)
+Lemma sys_guard_untouched : forall s d, (forall e, In e (d_store d) -> is_sys (fst (fst e)) = false) -> sys_guard s d = true.
+Proof.
+  intros. unfold sys_guard. apply forallb_forall. intros a Ha. apply is_sys_in in Ha.
+  destruct (touched d a) eqn:T; auto. unfold touched in T. apply existsb_exists in T. destruct T as [e [Hin E]].
+  apply N.eqb_eq in E. subst. rewrite (H _ Hin) in Ha. discriminate.
+Qed.
+
+Definition no_sys_write (o : op) : Prop :=
+  match o with Store d => forall e, In e (d_store d) -> is_sys (fst (fst e)) = false | Revert => True end.
+
+Lemma guarded_no_sys : forall store revert ops cg, Forall no_sys_write ops ->
+  snd (fold_left (gstep store revert) ops cg) = snd cg.
+Proof.
+  induction ops; simpl; intros; auto. inversion H; subst. rewrite IHops; auto.
+  unfold gstep. simpl. destruct a; simpl.
+  - rewrite (sys_guard_untouched _ _ H2). rewrite orb_true_r. apply andb_true_r.
+  - apply andb_true_r.
+Qed.
+
+Lemma c03_new_no_sys_lemma : forall (ops : list op) (s : st) (rc : list diff), Forall no_sys_write ops ->
+  run_new ops = (s, rc) ->
+  (forall q n, n < blen rc -> read_new s q n = lookup (truth_at rc n) q) /\
+  (forall q, read_head s q = lookup (truth rc) q).
+Proof.
+  intros. apply (c03_new_lemma ops); auto. unfold sys_guarded_new. rewrite guarded_no_sys; auto.
+Qed.
+
+Lemma c03_old_no_sys_lemma : forall (ops : list op) (s : st) (rc : list diff), Forall no_sys_write ops ->
+  run_old ops = (s, rc) ->
+  (forall q n, n < blen rc -> read_old s q n = lookup (truth_at rc n) q) /\
+  (forall q, read_head s q = lookup (truth rc) q).
+Proof.
+  intros. apply (c03_old_lemma ops); auto. unfold sys_guarded_old. rewrite guarded_no_sys; auto.
 Qed.
 
 (* what "equals the truth" says about existence and unset slots *)
 Lemma lookup_notfound : forall a q, lookup a q = NotFound <->
   match q with
-  | QClass x | QNonce x | QSlot x _ => a_contract a x = None
+  | QClass x | QNonce x | QSlot x _ => a_exists a x = None
   | QDecl h => a_decl a h = None
   end.
 Proof.
   intros. destruct q; simpl.
-  - destruct (a_contract a a0) as [[? ?]|]; split; intros; auto; discriminate.
-  - destruct (a_contract a a0) as [[? ?]|]; split; intros; auto; discriminate.
-  - destruct (a_contract a a0) as [[? ?]|]; split; intros; auto; discriminate.
+  - destruct (a_exists a a0) as [[? ?]|]; split; intros; auto; discriminate.
+  - destruct (a_exists a a0) as [[? ?]|]; split; intros; auto; discriminate.
+  - destruct (a_exists a a0) as [[? ?]|]; split; intros; auto; discriminate.
   - destruct (a_decl a h); split; intros; auto; discriminate.
 Qed.
 
